@@ -15,6 +15,7 @@ CONSTANTS
   Ticks <- TK_Sim
   Configs <- CfgsAll
   MaxSteps = 24
+  RouteMode <- RouteModeAll
 SPECIFICATION SimSpec
 INVARIANT Emit
 INVARIANT GProp
